@@ -1766,7 +1766,10 @@ pub fn run_budgeted<S, F>(
         }
         outcome
     });
-    let lost = format!("stage {stage}: shrunk input no longer fails");
+    // prop::run re-runs the shrunk and the original input at the end; once the shrink budget is
+    // used up those re-runs are answered "pass" above, and a schedule-dependent failure may not
+    // show again either: the failure that was really observed is reported then
+    let lost = format!("stage {stage}: a failure with signature");
     if ctx.notes.iter().any(|n| n.starts_with(&lost))
         && let Some(f) = last.into_inner()
         && !ctx.is_known(&f)
